@@ -53,7 +53,7 @@ theorem prod_lt {x y : Nat} (hx : x < 2^58) (hy : y < 2^52) : x * y < 2^58 * 2^5
   Nat.mul_lt_mul'' hx hy
 
 /-- a column of five products accumulated in a `uint128`, then split at bit 51 -/
-theorem acc5 (x0 y0 x1 y1 x2 y2 x3 y3 x4 y4 : Nat)
+theorem fe_acc5 (x0 y0 x1 y1 x2 y2 x3 y3 x4 y4 : Nat)
     (hx0 : x0 < 2^58) (hx1 : x1 < 2^58) (hx2 : x2 < 2^58) (hx3 : x3 < 2^58) (hx4 : x4 < 2^58)
     (hy0 : y0 < 2^52) (hy1 : y1 < 2^52) (hy2 : y2 < 2^52) (hy3 : y3 < 2^52) (hy4 : y4 < 2^52) :
     let r := Field.addMul64 (Field.addMul64 (Field.addMul64 (Field.addMul64 (Field.mul64 x0 y0)
@@ -76,7 +76,7 @@ theorem acc5 (x0 y0 x1 y1 x2 y2 x3 y3 x4 y4 : Nat)
   exact h
 
 /-- a column of three products (squaring) -/
-theorem acc3 (x0 y0 x1 y1 x2 y2 : Nat)
+theorem fe_acc3 (x0 y0 x1 y1 x2 y2 : Nat)
     (hx0 : x0 < 2^58) (hx1 : x1 < 2^58) (hx2 : x2 < 2^58)
     (hy0 : y0 < 2^52) (hy1 : y1 < 2^52) (hy2 : y2 < 2^52) :
     let r := Field.addMul64 (Field.addMul64 (Field.mul64 x0 y0) x1 y1) x2 y2
@@ -157,15 +157,15 @@ theorem mul_columns (v a b : Prims.Fe) (ha : Lt52 a) (hb : Lt52 b) :
   rw [e1, e2, e3, e4]
   have w : ∀ x, x < 2^52 → x < 2^58 := by intro x h; omega
   have w19 : ∀ x, x < 2^52 → x * 19 < 2^58 := by intro x h; omega
-  obtain ⟨s0, l0⟩ := acc5 a0 b0 (a1*19) b4 (a2*19) b3 (a3*19) b2 (a4*19) b1
+  obtain ⟨s0, l0⟩ := fe_acc5 a0 b0 (a1*19) b4 (a2*19) b3 (a3*19) b2 (a4*19) b1
     (w _ ha0) (w19 _ ha1) (w19 _ ha2) (w19 _ ha3) (w19 _ ha4) hb0 hb4 hb3 hb2 hb1
-  obtain ⟨s1, l1⟩ := acc5 a0 b1 a1 b0 (a2*19) b4 (a3*19) b3 (a4*19) b2
+  obtain ⟨s1, l1⟩ := fe_acc5 a0 b1 a1 b0 (a2*19) b4 (a3*19) b3 (a4*19) b2
     (w _ ha0) (w _ ha1) (w19 _ ha2) (w19 _ ha3) (w19 _ ha4) hb1 hb0 hb4 hb3 hb2
-  obtain ⟨s2, l2⟩ := acc5 a0 b2 a1 b1 a2 b0 (a3*19) b4 (a4*19) b3
+  obtain ⟨s2, l2⟩ := fe_acc5 a0 b2 a1 b1 a2 b0 (a3*19) b4 (a4*19) b3
     (w _ ha0) (w _ ha1) (w _ ha2) (w19 _ ha3) (w19 _ ha4) hb2 hb1 hb0 hb4 hb3
-  obtain ⟨s3, l3⟩ := acc5 a0 b3 a1 b2 a2 b1 a3 b0 (a4*19) b4
+  obtain ⟨s3, l3⟩ := fe_acc5 a0 b3 a1 b2 a2 b1 a3 b0 (a4*19) b4
     (w _ ha0) (w _ ha1) (w _ ha2) (w _ ha3) (w19 _ ha4) hb3 hb2 hb1 hb0 hb4
-  obtain ⟨s4, l4⟩ := acc5 a0 b4 a1 b3 a2 b2 a3 b1 a4 b0
+  obtain ⟨s4, l4⟩ := fe_acc5 a0 b4 a1 b3 a2 b2 a3 b1 a4 b0
     (w _ ha0) (w _ ha1) (w _ ha2) (w _ ha3) (w _ ha4) hb4 hb3 hb2 hb1 hb0
   rw [s0, s1, s2, s3, s4, l0, l1, l2, l3, l4]
   have c0 : a0 * b0 + a1 * 19 * b4 + a2 * 19 * b3 + a3 * 19 * b2 + a4 * 19 * b1 =
@@ -204,11 +204,11 @@ theorem square_columns (v a : Prims.Fe) (ha : Lt52 a) :
   have w2 : ∀ x, x < 2^52 → x * 2 < 2^58 := by intro x h; omega
   have w19 : ∀ x, x < 2^52 → x * 19 < 2^58 := by intro x h; omega
   have w38 : ∀ x, x < 2^52 → x * 38 < 2^58 := by intro x h; omega
-  obtain ⟨s0, l0⟩ := acc3 a0 a0 (a1*38) a4 (a2*38) a3 (w _ ha0) (w38 _ ha1) (w38 _ ha2) ha0 ha4 ha3
-  obtain ⟨s1, l1⟩ := acc3 (a0*2) a1 (a2*38) a4 (a3*19) a3 (w2 _ ha0) (w38 _ ha2) (w19 _ ha3) ha1 ha4 ha3
-  obtain ⟨s2, l2⟩ := acc3 (a0*2) a2 a1 a1 (a3*38) a4 (w2 _ ha0) (w _ ha1) (w38 _ ha3) ha2 ha1 ha4
-  obtain ⟨s3, l3⟩ := acc3 (a0*2) a3 (a1*2) a2 (a4*19) a4 (w2 _ ha0) (w2 _ ha1) (w19 _ ha4) ha3 ha2 ha4
-  obtain ⟨s4, l4⟩ := acc3 (a0*2) a4 (a1*2) a3 a2 a2 (w2 _ ha0) (w2 _ ha1) (w _ ha2) ha4 ha3 ha2
+  obtain ⟨s0, l0⟩ := fe_acc3 a0 a0 (a1*38) a4 (a2*38) a3 (w _ ha0) (w38 _ ha1) (w38 _ ha2) ha0 ha4 ha3
+  obtain ⟨s1, l1⟩ := fe_acc3 (a0*2) a1 (a2*38) a4 (a3*19) a3 (w2 _ ha0) (w38 _ ha2) (w19 _ ha3) ha1 ha4 ha3
+  obtain ⟨s2, l2⟩ := fe_acc3 (a0*2) a2 a1 a1 (a3*38) a4 (w2 _ ha0) (w _ ha1) (w38 _ ha3) ha2 ha1 ha4
+  obtain ⟨s3, l3⟩ := fe_acc3 (a0*2) a3 (a1*2) a2 (a4*19) a4 (w2 _ ha0) (w2 _ ha1) (w19 _ ha4) ha3 ha2 ha4
+  obtain ⟨s4, l4⟩ := fe_acc3 (a0*2) a4 (a1*2) a3 a2 a2 (w2 _ ha0) (w2 _ ha1) (w _ ha2) ha4 ha3 ha2
   rw [s0, s1, s2, s3, s4, l0, l1, l2, l3, l4]
   have c0 : a0 * a0 + a1 * 38 * a4 + a2 * 38 * a3 =
       col0 ⟨a0, a1, a2, a3, a4⟩ ⟨a0, a1, a2, a3, a4⟩ := by simp only [col0]; ring
